@@ -75,6 +75,14 @@ def run(tier, seed):
         rt = 'FREQ=%s;BYDAY=%s' % (fr, ','.join(mem)) + rnd.choice(['', ';COUNT=90', ';BYMONTH=3,10', ';INTERVAL=2'])
         ds = (rnd.choice([2019, 2020, 2024]), rnd.randint(1, 12), rnd.randint(1, 28)) + rnd.choice([(), (8, 30, 0)])
         cases.append({'uid': 'w%d' % k, 'ds': rrgen.inst(ds), 'tz': False, 'rtext': rt, 'count': 0, 'until': [], 'ics': rrgen.event_ics('w%d' % k, ds, [rt]), 'maxpop': 130, 'mode': rnd.choice('np')})
+    # day shifts that carry a date of a table calendar beyond the table (forward at its end, backward at its beginning): the date is
+    # dropped, the stream ends, within the work budget
+    for k in range(400 if tier == 'thorough' else 48):
+        sc, (y0, y1) = rnd.choice([('HIJRI.UMMULQURA', (2076, 2077)), ('HIJRI.DIYANET', (2021, 2022)), ('HIJRI.UMMULQURA', (1937, 1938)), ('HIJRI.DIYANET', (1937, 1938))])
+        fwd = y0 > 2000
+        ds = (rnd.randint(y0, y1), rnd.randint(1, 12), rnd.randint(1, 28)) + rnd.choice([(), (7, 0, 0)])
+        rt = 'FREQ=%s;SCALE=%s;BYMONTHDAY=%s;SHIFT=%d' % (rnd.choice(['YEARLY;BYMONTH=%d' % rnd.choice([1, 6, 11, 12]), 'MONTHLY']), sc, rnd.choice(['20', '1,29', '-1', '15,30']), rnd.choice([1, 5, 15, 40, 100, 366]) * (1 if fwd else -1))
+        cases.append({'uid': 'e%d' % k, 'ds': rrgen.inst(ds), 'tz': False, 'rtext': rt, 'count': 0, 'until': [], 'ics': rrgen.event_ics('e%d' % k, ds, [rt]), 'maxpop': 130, 'mode': rnd.choice('np')})
     calls = []
     for k in range(n):
         y = rnd.choice([1900, 1901, 1902, 1970, 2000, 2037, 2038, 2077, 2097, 2098, 2099] + rrgen.year_types()); m = rnd.randint(1, 12); d = rnd.choice([1, 28, 29, 30, 31]); d = min(d, rrgen.dim(y, m))
